@@ -76,6 +76,8 @@ impl AtomicBool {
     #[verifier::external_body]
     pub fn store(&mut self, val: bool, o: Ordering) ensures final(self).v == val { unimplemented!() }
     #[verifier::external_body]
+    pub fn swap(&mut self, val: bool, o: Ordering) -> (r: bool) ensures final(self).v == val, r == old(self).v { unimplemented!() }
+    #[verifier::external_body]
     pub fn compare_exchange(&mut self, current: bool, new: bool, s: Ordering, f: Ordering) -> (r: Result<bool, bool>)
         ensures match r {
             Ok(x) => x == current && old(self).v == current && final(self).v == new,
